@@ -4,12 +4,12 @@ use std::path::{Path, PathBuf};
 use std::process::{Command, Stdio};
 use std::time::{Duration, Instant};
 
-pub const CLI: &str = "/verif/target/cli/release/asca";
+pub fn cli() -> String { format!("{}/target/cli/release/asca", crate::util::root()) }
 
 pub struct CliOut { pub code: Option<i32>, pub stdout: String, pub stderr: String, pub timed_out: bool }
 
 pub fn run_cli(cwd: &Path, args: &[&str]) -> CliOut {
-    let mut child = match Command::new(CLI).args(args).current_dir(cwd).env("NO_COLOR", "1").env_remove("CLICOLOR_FORCE")
+    let mut child = match Command::new(cli()).args(args).current_dir(cwd).env("NO_COLOR", "1").env_remove("CLICOLOR_FORCE")
         .stdin(Stdio::null()).stdout(Stdio::piped()).stderr(Stdio::piped()).spawn() {
         Ok(c) => c,
         Err(e) => return CliOut { code: None, stdout: String::new(), stderr: format!("spawn failed: {}", e), timed_out: false },
@@ -32,7 +32,7 @@ pub fn run_cli(cwd: &Path, args: &[&str]) -> CliOut {
 /// like `run_cli`, with text fed to the process on stdin (answers to its prompts)
 pub fn run_cli_stdin(cwd: &Path, args: &[&str], input: &str) -> CliOut {
     use std::io::Write;
-    let mut child = match Command::new(CLI).args(args).current_dir(cwd).env("NO_COLOR", "1").env_remove("CLICOLOR_FORCE")
+    let mut child = match Command::new(cli()).args(args).current_dir(cwd).env("NO_COLOR", "1").env_remove("CLICOLOR_FORCE")
         .stdin(Stdio::piped()).stdout(Stdio::piped()).stderr(Stdio::piped()).spawn() {
         Ok(c) => c,
         Err(e) => return CliOut { code: None, stdout: String::new(), stderr: format!("spawn failed: {}", e), timed_out: false },
@@ -56,7 +56,7 @@ pub fn run_cli_stdin(cwd: &Path, args: &[&str], input: &str) -> CliOut {
 pub struct Sandbox { pub dir: PathBuf }
 impl Sandbox {
     pub fn new(tag: &str, n: usize) -> Self {
-        let dir = PathBuf::from(format!("/verif/work/{}_{}/{}", tag, std::process::id(), n));
+        let dir = PathBuf::from(format!("{}/work/{}_{}/{}", crate::util::root(), tag, std::process::id(), n));
         let _ = std::fs::remove_dir_all(&dir);
         std::fs::create_dir_all(&dir).expect("sandbox dir");
         Sandbox { dir }
@@ -74,6 +74,6 @@ impl Sandbox {
 }
 impl Drop for Sandbox { fn drop(&mut self) { let _ = std::fs::remove_dir_all(&self.dir); } }
 
-pub fn cleanup(tag: &str) { let _ = std::fs::remove_dir_all(format!("/verif/work/{}_{}", tag, std::process::id())); }
+pub fn cleanup(tag: &str) { let _ = std::fs::remove_dir_all(format!("{}/work/{}_{}", crate::util::root(), tag, std::process::id())); }
 
-pub fn cli_available() -> bool { Path::new(CLI).exists() }
+pub fn cli_available() -> bool { Path::new(&cli()).exists() }
